@@ -37,22 +37,33 @@ def aRaise (a : AState) (o : Nat) : AState :=
       if a.nanchor - 1 = 0 then { a with anchor := none, nanchor := 0 } else { a with nanchor := a.nanchor - 1 }
     else a
 
+/-- The bracket `SetAnchor(t) … RaiseAnchor(t)` that the line and token calls put around their work (`t` = start of the
+    line/token): an anchor at or before `t` is untouched; an anchor AHEAD of `t` — `esl_buffer_SetAnchor` accepts any
+    offset of the current window, and an in-window rewind may go before the anchor — is replaced by the bracket's own
+    anchor and is gone when the call returns. Inside the API contract (`Valid`) the anchor is never ahead of the cursor. -/
+def aBrk (a : AState) (t : Nat) : AState :=
+  match a.anchor with
+  | some A => if A ≤ t then a else { a with anchor := none, nanchor := 0 }
+  | none => a
+
 /-- specification of the 14 operations -/
 def specStep (a : AState) (op : Op) : Obs × AState :=
   match op with
   | .getLine =>
     let r := specGetLine a.abs
-    (⟨r.1, r.2.1, r.2.2.cur⟩, { a with cur := r.2.2.cur, lastp := if r.1 = .ok then some a.cur else none })
+    (⟨r.1, r.2.1, r.2.2.cur⟩, { aBrk a a.cur with cur := r.2.2.cur, lastp := if r.1 = .ok then some a.cur else none })
   | .fetchLine | .fetchLineStr =>
     let r := specGetLine a.abs
-    (⟨r.1, r.2.1, r.2.2.cur⟩, { a with cur := r.2.2.cur, lastp := none })
+    (⟨r.1, r.2.1, r.2.2.cur⟩, { aBrk a a.cur with cur := r.2.2.cur, lastp := none })
   | .getToken sep =>
     let r := specToken a.abs sep
+    let t := a.cur + runLen (isSep sep) a.abs.suffix
     (⟨r.1, r.2.1, r.2.2.cur⟩,
-     { a with cur := r.2.2.cur, lastp := if r.1 = .ok then some (a.cur + runLen (isSep sep) a.abs.suffix) else none })
+     { (if r.1 = .ok then aBrk a t else a) with cur := r.2.2.cur, lastp := if r.1 = .ok then some t else none })
   | .fetchToken sep | .fetchTokenStr sep =>
     let r := specToken a.abs sep
-    (⟨r.1, r.2.1, r.2.2.cur⟩, { a with cur := r.2.2.cur, lastp := none })
+    let t := a.cur + runLen (isSep sep) a.abs.suffix
+    (⟨r.1, r.2.1, r.2.2.cur⟩, { (if r.1 = .ok then aBrk a t else a) with cur := r.2.2.cur, lastp := none })
   | .read k =>
     let r := specRead a.abs k
     (⟨r.1, r.2.1, r.2.2.cur⟩, { a with cur := r.2.2.cur, lastp := none })
@@ -99,6 +110,38 @@ def validB (P : Nat) (a : AState) : Op → Bool
     | some A => decide (A ≤ o)
     | none => false)
   | _ => true
+
+theorem aBrk_src (a : AState) (t : Nat) : (aBrk a t).src = a.src := by
+  unfold aBrk; cases a.anchor with
+  | none => rfl
+  | some A => simp only []; split <;> rfl
+
+theorem aBrk_cur (a : AState) (t : Nat) : (aBrk a t).cur = a.cur := by
+  unfold aBrk; cases a.anchor with
+  | none => rfl
+  | some A => simp only []; split <;> rfl
+
+theorem aBrk_lastp (a : AState) (t : Nat) : (aBrk a t).lastp = a.lastp := by
+  unfold aBrk; cases a.anchor with
+  | none => rfl
+  | some A => simp only []; split <;> rfl
+
+/-- the bracket changes nothing when the anchor is at or before its offset -/
+theorem aBrk_of_le (a : AState) (t : Nat) (h : ∀ A, a.anchor = some A → A ≤ t) : aBrk a t = a := by
+  unfold aBrk; cases ha : a.anchor with
+  | none => rfl
+  | some A => simp only []; rw [if_pos (h A ha)]
+
+/-- what is left of the anchor record: the same anchor and count, or nothing -/
+theorem aBrk_sub (a : AState) (t : Nat) (A : Nat) (h : (aBrk a t).anchor = some A) :
+    a.anchor = some A ∧ A ≤ t ∧ (aBrk a t).nanchor = a.nanchor := by
+  unfold aBrk at h ⊢; cases ha : a.anchor with
+  | none => rw [ha] at h; simp only [] at h; rw [ha] at h; cases h
+  | some A0 =>
+    rw [ha] at h; simp only [] at h ⊢
+    split at h
+    · rename_i hle; rw [ha] at h; cases h; rw [if_pos hle]; exact ⟨rfl, hle, rfl⟩
+    · cases h
 
 theorem anchor_ex_iff (a : AState) (o : Nat) :
     (match a.anchor with
